@@ -341,7 +341,13 @@ impl<'a> Gen<'a> {
                 if let Some(KeySpec::Lit(k)) = self.recent.last().cloned() {
                     keys.push(k);
                 }
-                QueryOp::Smart { contract: self.target_contract(), keys }
+                let scan = self.rng.chance(1, 3);
+                let chain: Vec<Target> = match self.rng.below(6) {
+                    0 | 1 => (0..1 + self.rng.below(2)).map(|_| self.target_contract()).collect(),
+                    2 => (0..3 + self.rng.below(3)).map(|_| self.target_contract()).collect(),
+                    _ => vec![],
+                };
+                QueryOp::Smart { contract: self.target_contract(), keys, scan, chain }
             }
             10 | 11 => QueryOp::ContractInfo { contract: self.target_contract() },
             12 => QueryOp::CodeInfo { code: self.rng.below(self.n_codes as u64 + 1) as u32 },
@@ -420,6 +426,16 @@ impl<'a> Gen<'a> {
                     }
                     n.writes.push(WriteOp::Set { k, v });
                 }
+            }
+        }
+        if !n.writes.is_empty() && self.rng.chance(1, 3) {
+            for _ in 0..1 + self.rng.below(2) {
+                let r = if self.rng.chance(1, 2) {
+                    ReadOp::Get(self.recent_or_key())
+                } else {
+                    ReadOp::Range { start: None, end: if self.rng.chance(1, 2) { None } else { Some(self.rng.pick(&KEY_POOL).to_vec()) }, desc: self.rng.chance(1, 2) }
+                };
+                n.post_reads.push(r);
             }
         }
         n.fail = self.pc(self.p.fail);
@@ -532,7 +548,13 @@ impl<'a> Gen<'a> {
                 },
             }
         };
-        let label = if self.rng.chance(1, 12) { String::new() } else { format!("label{}", slot) };
+        let label = match self.rng.below(14) {
+            0 => String::new(),
+            1 => format!(" lead{}", slot),
+            2 => format!("trail{} ", slot),
+            3 => format!("\t{}\n", slot),
+            _ => format!("label{}", slot),
+        };
         let admin = match self.rng.below(4) {
             0 => None,
             1 => Some(Target::SelfAddr),
@@ -575,6 +597,13 @@ impl<'a> Gen<'a> {
                 let sweep = self.pc(self.p.sweep);
                 Op::Exec { sender, msg, sweep }
             }
+            1 if self.p.s_bank >= 20 && self.rng.chance(1, 4) => {
+                // many never-seen recipients at once: the bank comes to know a lot of accounts
+                let first = self.rng.below(24) as u32;
+                let n = 6 + self.rng.below(6) as u32;
+                let msgs = (0..n).map(|i| MsgSpec::Send { to: Target::Ghost(first + i), coins: vec![CoinSpec { denom: 0, amt: Amt::Abs(1 + i as u64) }] }).collect();
+                Op::Multi { sender, msgs }
+            }
             1 => {
                 let n = 1 + self.rng.below(4);
                 let saved = self.p.max_nodes;
@@ -614,7 +643,10 @@ impl<'a> Gen<'a> {
                     _ => 5,
                 };
                 let abs_h = if self.rng.chance(1, 6) { Some(*self.rng.pick(&[0u64, 1, u64::MAX, 7])) } else { None };
-                Op::Block { set: self.rng.chance(1, 2), dh: self.rng.below(3), dt, abs_h }
+                let dn = if self.rng.chance(1, 4) { self.rng.range(1, 999_999_999) as u32 } else { 0 };
+                let (dt, dh) = if dn > 0 && self.rng.chance(1, 2) { (0, 0) } else { (dt, self.rng.below(3)) };
+                let chain = if self.rng.chance(1, 8) { Some(self.rng.below(3) as u8) } else { None };
+                Op::Block { set: self.rng.chance(1, 2), dh, dt, abs_h, dn, chain, zero_time: self.rng.chance(1, 40) }
             }
             7 => {
                 let v = if self.rng.chance(1, 5) { None } else { Some(format!("ext{}", self.uniq()).into_bytes()) };
@@ -777,6 +809,11 @@ fn node_variants(n: &Node) -> Vec<Node> {
                 out.push(c);
             }
         }
+    }
+    if !n.post_reads.is_empty() {
+        let mut c = n.clone();
+        c.post_reads.clear();
+        out.push(c);
     }
     if !n.writes.is_empty() {
         let mut c = n.clone();
